@@ -133,6 +133,15 @@ class Calculation(UnaryOperation):
                     f"{set(self.columns_required - current.target.columns)}",
                 ),
             )
+        if self.tag in current.target.columns:
+            # The upstream relation still has a column with this tag (dropped
+            # downstream by a projection), so the calculation cannot go there.
+            return UnaryCommutator(
+                first=None,
+                second=current.operation,
+                done=False,
+                messages=(f"{current.target} already has column {self.tag}",),
+            )
         # If we commute a calculation before a projection, the
         # projection also needs to include the calculated column.
         return UnaryCommutator(
